@@ -136,3 +136,37 @@ def reach(t: str) -> bool:
         return len(unfold_search(PRE + t + SUF)) < 2
     except SpilException:
         return True
+
+
+HIST = ["h/s,a/*", "h/s/*", "h/a/*", "h/a/x/v1/y", "h/a/x/v1/b", "h/a/x/v1/m", "h/s,a", "h/a", "h/s", "h/a,zz", "h/*/**/y", "h/a/**/m"]
+_RH = list(range(16))
+
+
+def history(i: int, j: int) -> bool:
+    """
+    With spil's caches ON: unfold_search(HIST[i]) first, then unfold_search(HIST[j]) still equals the reference
+    (an earlier, related search must not leak into a later one).
+    pre: 0 <= i < 12 and 0 <= j < 12
+    post: _
+    """
+    i, j = _RH[i], _RH[j]
+    env.clear_caches()
+    try:
+        unfold_search(HIST[i])
+    except SpilException:
+        pass
+    try:
+        want = unfold_ref.unfold_ref(HIST[j])
+    except unfold_ref.RefError:
+        return True
+    try:
+        got = [(r.type, r.string) for r in unfold_search(HIST[j])]
+    except SpilException:
+        return fail("spilexception-mismatch")
+    for g in got:
+        if g not in want:
+            return fail("extra-result-after-earlier-search")
+    for w in want:
+        if w not in got:
+            return fail("missing-result-after-earlier-search")
+    return len(got) == len(want) or fail("duplicate-or-count")
